@@ -50,8 +50,19 @@ func (t *Term) IsConst() bool { return t.Op == "c" }
 func (t *Term) Int64() int64 { return t.I.Int64() }
 
 // Factory interns terms; one per worker (not goroutine safe).
+type tkey struct {
+	op         string
+	sort       Sort
+	a0, a1, a2 int
+	n          int
+	name       string
+}
+
 type Factory struct {
 	tab    map[string]*Term
+	ktab   map[tkey]*Term
+	itab   map[int64]*Term
+	vtab   map[string]*Term
 	nextID int
 	True   *Term
 	False  *Term
@@ -60,7 +71,7 @@ type Factory struct {
 }
 
 func NewFactory() *Factory {
-	f := &Factory{tab: map[string]*Term{}}
+	f := &Factory{tab: map[string]*Term{}, ktab: map[tkey]*Term{}, itab: map[int64]*Term{}, vtab: map[string]*Term{}}
 	f.True = f.intern(&Term{Op: "c", Sort: SBool, B: true})
 	f.False = f.intern(&Term{Op: "c", Sort: SBool, B: false})
 	return f
@@ -95,6 +106,26 @@ func (f *Factory) key(t *Term) string {
 }
 
 func (f *Factory) intern(t *Term) *Term {
+	if t.Op != "c" && len(t.Args) <= 3 {
+		k := tkey{op: t.Op, sort: t.Sort, n: len(t.Args), name: t.Name}
+		switch len(t.Args) {
+		case 3:
+			k.a2 = t.Args[2].id
+			fallthrough
+		case 2:
+			k.a1 = t.Args[1].id
+			fallthrough
+		case 1:
+			k.a0 = t.Args[0].id
+		}
+		if o, ok := f.ktab[k]; ok {
+			return o
+		}
+		f.nextID++
+		t.id = f.nextID
+		f.ktab[k] = t
+		return t
+	}
 	k := f.key(t)
 	if o, ok := f.tab[k]; ok {
 		return o
@@ -110,8 +141,7 @@ func (f *Factory) Int(v int64) *Term {
 		if t := f.small[v]; t != nil {
 			return t
 		}
-		b := big.NewInt(v)
-		t := f.intern(&Term{Op: "c", Sort: SInt, I: b, Lo: b, Hi: b})
+		t := f.BigInt(big.NewInt(v))
 		f.small[v] = t
 		return t
 	}
@@ -119,6 +149,17 @@ func (f *Factory) Int(v int64) *Term {
 }
 
 func (f *Factory) BigInt(v *big.Int) *Term {
+	if v.IsInt64() {
+		k := v.Int64()
+		if t, ok := f.itab[k]; ok {
+			return t
+		}
+		b := new(big.Int).Set(v)
+		f.nextID++
+		t := &Term{Op: "c", Sort: SInt, I: b, Lo: b, Hi: b, id: f.nextID}
+		f.itab[k] = t
+		return t
+	}
 	b := new(big.Int).Set(v)
 	return f.intern(&Term{Op: "c", Sort: SInt, I: b, Lo: b, Hi: b})
 }
@@ -134,7 +175,22 @@ func (f *Factory) Bool(b bool) *Term {
 
 // Var declares a fresh variable; names must be unique per path.
 func (f *Factory) Var(name string, s Sort, lo, hi *big.Int) *Term {
-	t := f.intern(&Term{Op: "v", Sort: s, Name: name, Lo: lo, Hi: hi})
+	// identity = name + bounds (a factory outlives one path; the same tag may be
+	// declared with other bounds on another path)
+	key := name + "@"
+	if lo != nil {
+		key += lo.String()
+	}
+	key += ":"
+	if hi != nil {
+		key += hi.String()
+	}
+	t, ok := f.vtab[key]
+	if !ok {
+		f.nextID++
+		t = &Term{Op: "v", Sort: s, Name: name, Lo: lo, Hi: hi, id: f.nextID}
+		f.vtab[key] = t
+	}
 	for _, v := range f.Vars {
 		if v == t {
 			return t
